@@ -810,3 +810,58 @@ def rule_cache_full_scan(ctx):
                     "/".join(sorted(arrs)), dim, cnt, "a released id stays resolvable through the slot that is skipped" if cnt < dim else "it runs past the array"))
     ctx.floor("FULLSCAN", 2, n, "(loops over the atom lookup cache)")
     return n
+
+
+class _RelKey(PathAnalysis):
+    def __init__(self, prog, param):
+        super().__init__(prog)
+        self.param = param
+        self.exits = []
+
+    def init_user(self, func):
+        return False
+
+    def on_stmt(self, func, bid, idx, stmt, env, user):
+        from .facts import kind, strip
+        for c in calls_in(stmt["e"]):
+            if c[1] == "HAremove_atom" and c[3] and kind(strip(c[3][0])) == "var" and strip(c[3][0])[1] == self.param:
+                user = True
+        return user
+
+    def on_exit(self, func, bid, retval, env, user):
+        self.exits.append((classify_ret(retval, self.fails), user))
+
+
+def rule_release_removes_key(ctx):
+    """RELKEY (C13): a routine whose job is to release the identifier it is given (it calls HAremove_atom on its own id parameter)
+    removes that identifier on *every* non-failing path.  Objects that can be reached through several identifiers (a Vdata attached
+    twice for reading, a GR interface started twice) count their users; the path 'others are still using it, nothing to tear down'
+    must release the caller's identifier all the same, or the identifier stays valid after its release and outlives the object
+    when the last user tears it down."""
+    prog = ctx.prog
+    n = 0
+    for f in prog.lib_funcs():
+        if not f.params or not prog.is_public(f.name):
+            continue
+        p0 = f.params[0][0]
+        from .facts import kind, strip
+        if not any(c[1] == "HAremove_atom" and c[3] and kind(strip(c[3][0])) == "var" and strip(c[3][0])[1] == p0 for _b, _i, _s, c in f.calls()):
+            continue
+        a = _RelKey(prog, p0)
+        a.fails = fail_values(f, prog)
+        try:
+            a.run(f)
+        except Exception:
+            continue
+        n += 1
+        key = "RELKEY:%s" % f.name
+        ok = [u for cls, u in a.exits if cls != "fail"]
+        if not ok:
+            ctx.unrecognised("RELKEY", key, f.where(), "no non-failing exit")
+        elif all(ok):
+            ctx.holds("RELKEY", key, f.where(), "`%s` is removed from the atom table on every non-failing path" % p0, nontrivial=len(ok) > 1)
+        else:
+            ctx.violated("RELKEY", key, f.where(), "%s returns success on a path that does not remove `%s` from the atom table: the released identifier stays valid "
+                         "(and dangles once the shared object is torn down by its last user)" % (f.name, p0))
+    ctx.floor("RELKEY", 6, n, "(public routines that release their identifier)")
+    return n
